@@ -3,6 +3,7 @@ package main
 import (
 	"fmt"
 	"go/types"
+	"os"
 	"strings"
 
 	"golang.org/x/tools/go/ssa"
@@ -30,7 +31,7 @@ func effectFree(name string) bool {
 		"github.com/scionproto/scion/private/underlay/conn.ResolveAddrPort",
 		"(context.Context).", "context.", "time.NewTimer", "time.NewTicker", "time.After", "time.AfterFunc",
 		"net/netip.", "(net/netip.Addr).", "(net/netip.AddrPort).", "(net/netip.Prefix).",
-		"(net.IP).", "net.ParseIP", "(*net.UDPAddr).String", "(*net.IPNet).",
+		"(net.IP).", "net.ParseIP", "(*net.UDPAddr).String", "(*net.UDPAddr).AddrPort", "(*net.IPNet).",
 	} {
 		if strings.HasPrefix(name, p) {
 			return true
@@ -338,7 +339,14 @@ func (x *Exec) modularCall(st *State, fr *Frame, ci *ssa.Call, c *FuncContract, 
 		}
 		_, txt := x.srcLine(ci.Pos())
 		oname := fmt.Sprintf("pre:%s>%s#%d:%s", x.targetName(), short, i+1, txt)
-		x.oblige(st, oname, "pre", "precondition "+r.text+" of "+name, ci.Pos(), t)
+		if t.op == "and" && len(t.args) <= 64 && os.Getenv("GOWP_SPLIT_PRE") != "" {
+			// diagnostics: one obligation per conjunct
+			for k, a := range t.args {
+				x.oblige(st, fmt.Sprintf("%s.%d", oname, k+1), "pre", "conjunct of precondition "+r.text+" of "+name, ci.Pos(), a)
+			}
+		} else {
+			x.oblige(st, oname, "pre", "precondition "+r.text+" of "+name, ci.Pos(), t)
+		}
 		st.assume(t)
 	}
 	pre := st.clone()
@@ -379,7 +387,7 @@ func (x *Exec) modularCall(st *State, fr *Frame, ci *ssa.Call, c *FuncContract, 
 		results = append(results, r)
 	}
 	bindResults(vars, sig, results)
-	penv := &Env{x: x, st: st, oldSt: pre, vars: vars, pkg: pkg}
+	penv := &Env{x: x, st: st, oldSt: pre, vars: vars, pkg: pkg, assumeFresh: true}
 	x.applyGsets(st, penv, c)
 	for _, en := range c.ensures {
 		t, err := penv.EvalBool(en.expr)
